@@ -851,7 +851,7 @@ def eval_dyad_reshape(a, b, backend):
 
     """
     np_backend = backend.np
-    j = isinstance(b, str)
+    j = isinstance(b, str) and not isinstance(b, KGSym)
     b = backend.str_to_chr_arr(b) if j else b
     if np_backend.isarray(a):
         if np_backend.isarray(b):
@@ -876,6 +876,9 @@ def eval_dyad_reshape(a, b, backend):
                 r = np_backend.resize(b, a_shape)
         else:
             r = np_backend.full(a, b)
+            if isinstance(b, KGSym): # np.full would turn the symbol into a string
+                r = r.astype(object)
+                r.fill(b)
     else:
         if a == 0:
             r = b
@@ -888,6 +891,9 @@ def eval_dyad_reshape(a, b, backend):
                 r = np_backend.concatenate((np_backend.tile(b,ns), b[:a - b.shape[0]*ns[0]]))
         else:
             r = np_backend.full((a,), b)
+            if isinstance(b, KGSym): # np.full would turn the symbol into a string
+                r = r.astype(object)
+                r.fill(b)
     if j:
         if np_backend.isarray(r) and r.ndim > 1:
             return np_backend.asarray(["".join(x) for x in r], dtype=object)
